@@ -171,7 +171,7 @@ pub fn c10_rl(g: &mut Gen) {
 
 pub fn c16_rl(g: &mut Gen) {
     let depth = if g.thorough { 5 } else { 4 };
-    let alphabet: Vec<String> = vec!["s0,1", "s1,2", "s3,0", "s5,3", "s8,1", "s2,2", "l4", "l10", "l0", "s10,5", "s18446744073709551615,1", "s7,18446744073709551610"]
+    let alphabet: Vec<String> = vec!["s0,1", "s1,2", "s3,0", "s5,3", "s8,1", "s2,2", "l4", "l8", "l10", "l0", "s10,5", "s18446744073709551615,1", "s7,18446744073709551610"]
         .into_iter().map(|s| s.to_string()).collect();
     let mut lines = Vec::new();
     for d in 0..=depth {
@@ -250,6 +250,14 @@ pub fn c11(g: &mut Gen) {
         viaset.push(format!("l{}", len));
         lines.push(format!("rl R3 build : {}", viaset.join(" ")));
         lines.push("rl R0 eq R3".to_string());
+        // every run split in two with a set_len to the *current* length between the pieces (a no-op that must not split the run)
+        let mut noop: Vec<String> = Vec::new();
+        for (a, l) in &runs { if *l > 1 { let k = 1 + g.rng.below(l - 1); noop.push(format!("s{},{}", a, k)); noop.push(format!("l{}", a + k)); noop.push(format!("s{},{}", a + k, l - k)); } else { noop.push(format!("s{},{}", a, l)); noop.push(format!("l{}", a + l)); } }
+        noop.push(format!("l{}", len));
+        lines.push(format!("rl R5 build : {}", noop.join(" ")));
+        lines.push("rl R0 eq R5".to_string());
+        lines.push("rl R5 runs".to_string());
+        lines.push("rl R5 ser".to_string());
         // set_len exactly up to the start of the next run (the next run is then adjacent to the length)
         let mut adj: Vec<String> = Vec::new();
         for (a, l) in &runs { if *a > 0 { adj.push(format!("l{}", a)); } adj.push(format!("s{},{}", a, l)); }
